@@ -123,7 +123,7 @@ class CDNReader:
         else:
             # the path being absolute makes Path.parent work reliably
             file = Path(file).absolute()
-            fs = OSFS(fsdecode(file.parent))
+            fs = OSFS(fsdecode(file.parent), expand_vars=False)
             title_root = '/'
             file = file.name
         self.fs = fs
